@@ -444,8 +444,15 @@ def objects_oracle(ctx, ex):
                 xml = obj.tocimxmlstr(indent='', **kw)
         finally:
             _cim_xml._CDATA_ESCAPING = old
-    except (ValueError, TypeError, UnicodeError, AssertionError) as exc:
-        # "fails locally with an exception": the statement names no type
+    except Exception as exc:  # pylint: disable=broad-except
+        # "fails locally with an exception": the statement names no type.
+        # For objects as built, only the types pywbem documents for
+        # unrepresentable content are taken as that; after a value of
+        # another shape was forced into an element, any exception is a
+        # local failure.
+        if not isinstance(exc, (ValueError, TypeError, UnicodeError,
+                                AssertionError)) and mismatch != 'assigned':
+            raise
         ctx.case(nontrivial=False,
                  classes=('kind:' + kind, 'local-failure:' +
                           type(exc).__name__))
